@@ -12,7 +12,8 @@ Total == out # "pending" => CallOk(cell[1], cell[2], out)
 (* every hostile class is also met together with other, harmless, fields set (guards that return early, extensions  *)
 (* whose presence changes which checks run): the background of the parameters                                        *)
 Backgrounds == {"plain", "nc-some-empty", "ca", "explicit-no-ca", "aki-crldp-nc", "rich"}
-BgCells == UNION { { [fn |-> c[1], class |-> c[2], bg |-> b] : b \in IF c[1] = "crl_signed_by" THEN {"plain"} ELSE Backgrounds } : c \in GenCells }
+(* for CRLs the background is the list of revoked certificates: one entry, or none at all *)
+BgCells == UNION { { [fn |-> c[1], class |-> c[2], bg |-> b] : b \in IF c[1] = "crl_signed_by" THEN {"plain", "no-revoked"} ELSE Backgrounds } : c \in GenCells }
            \cup { [fn |-> c[1], class |-> c[2], bg |-> "plain"] : c \in DocCells }
 Emit == IF TLCGet("stats").generated >= 0 /\ "CASES_OUT" \in DOMAIN IOEnv
         THEN ndJsonSerialize(IOEnv.CASES_OUT, SetToSeq(BgCells)) /\ PrintT(<<"CASES", Cardinality(BgCells), Cardinality(ParseCells)>>)
